@@ -58,6 +58,10 @@ func (c *Client) handleStatus() error {
 	cmd := c.findPendingCmdFunc(func(cmd command) bool {
 		switch cmd := cmd.(type) {
 		case *StatusCommand:
+			// The decoder canonicalizes the case-insensitive INBOX name
+			if strings.EqualFold(cmd.mailbox, "INBOX") {
+				return data.Mailbox == "INBOX"
+			}
 			return cmd.mailbox == data.Mailbox
 		case *ListCommand:
 			return cmd.returnStatus && cmd.pendingData != nil && cmd.pendingData.Mailbox == data.Mailbox
